@@ -366,6 +366,7 @@ class SimDevice:
                 return None
             ok = self.token is None or token == self.token
             conn["handshakes"] += 1
+            conn.setdefault("hs_times", []).append(transport.loop.now())
             req = self._log(transport, kind="hs", counter=counter, token_ok=ok, token=token, frame=None, raw=packet)
             req["valid"] = ok
             return req
@@ -382,9 +383,35 @@ class SimDevice:
                 req.update(decoded=True, frame=frame, device_id=dev_id, valid=True)
             except ValueError as e:
                 req["error"] = str(e)
+                self.stale_key_explanation(conn, req, packet)
             return req
         self._log(transport, kind="garbage", frame=None, error="unexpected packet type %d" % ptype, raw=packet)
         return None
+
+    def stale_key_explanation(self, conn, req, packet):
+        """a data packet that does not verify under the connection's latest session key: does it verify under the key of an
+        EARLIER handshake of this connection, and did that handshake's reply reach the client only after ANOTHER handshake
+        request had been written (so no flush before that request could have removed it)?  Computed from the device's own
+        record of keys, replies and delivery times."""
+        hist = conn.get("key_history", [])
+        for j, h in enumerate(hist[:-1]):
+            try:
+                _t, counter, inner = v3_enc_decode(h["key"], packet)
+            except ValueError:
+                continue
+            # what the packet says under the key it WAS encrypted with (for the structural log only; the unit rejected it)
+            req["alt"] = {"key": h["key"], "counter": counter}
+            try:
+                req["alt"]["frame"] = v2_decode(inner)[1]
+            except ValueError:
+                req["alt"]["frame"] = None
+            arrival = next((t for (t, cid, data) in self.sent if cid == conn["cid"] and data == h["reply"]), None)
+            req["verifies_under_handshake"] = j
+            # in flight: some handshake request (valid token or not) reached the unit after this reply's own request and
+            # before the reply reached the client
+            req["stale_reply_in_flight"] = bool(arrival is not None and h["t_req"] is not None and any(
+                h["t_req"] < t < arrival for t in conn.get("hs_times", [])))
+            return
 
     def _send(self, conn, delay, data, segments=None, gap=0.0):
         tr = conn["transport"]
@@ -404,7 +431,12 @@ class SimDevice:
             conn["nonce"] = nonce
             conn["session_key"] = v3_session_key(self.key, nonce)
             key = sha256(b"wrong" + self.key).digest() if wrong_key else self.key
-            return v3_handshake_reply(key, nonce, req["counter"])
+            reply = v3_handshake_reply(key, nonce, req["counter"])
+            # every session key this connection ever had, with the handshake request that produced it and the reply that
+            # carries it (used only to EXPLAIN a data packet that fails under the latest key, see `stale_key_explanation`)
+            conn.setdefault("key_history", []).append({"t_req": req.get("t"), "key": conn["session_key"], "reply": reply,
+                                                       "genuine": not wrong_key})
+            return reply
         if not req["valid"]:
             return ERROR_PACKET if self.version == 3 else None
         if frames is None:
